@@ -226,7 +226,7 @@ def judge_near(member, o):
     if not o["pos_ok"]:
         return "near:error-without-position", "%r: %s" % (o["text"], o["resolve_errs"])
     if not any(m.startswith(SUPERSET_MSGS) for m in o["resolve_errs"]):
-        return "near:nonmember-accepted-by-parser", "text outside the grammar accepted by the parser; resolver objects only to %s: %r" % (o["resolve_errs"], o["text"])
+        return "near:nonmember-accepted", "text outside the grammar accepted by the parser; the resolver objects only to %s: %r" % (o["resolve_errs"], o["text"])
     return None
 
 
@@ -485,7 +485,7 @@ def plan(ctx):
         "expr": [("e2full", 2, "full", "id", 0, 6), ("e3mid", 3, "mid", "id", 0, 3), ("e1lits", 1, "full", "all", 0, 4),
                  ("ernd", 12, "full", "all", 1500, 5)],
         "file": [("f2full", 2, "full", "id", 0, 6), ("f3full", 3, "full", "id", 0, 3), ("f4mid", 4, "mid", "id", 0, 3), ("frnd", 9, "full", "id", 800, 5)],
-        "near": {"expr": (900, 26), "file": (500, 36)},
+        "near": {"expr": (700, 26), "file": (400, 36)},
     }
 
 
@@ -563,18 +563,25 @@ def run(ctx):
     fam = {}
     for c in cases:
         fam[c["fam"]] = fam.get(c["fam"], 0) + 1
+    # re-execute the rejected cases (one batch) before reporting them
+    redo = [byid[cid] for cid in sorted(bad) if "pre" not in byid[cid]]
+    again = scan_lits(ctx, redo, tag="relit") if redo else {}
+    per_sig = {}
     for cid in sorted(bad):
         c = byid[cid]
-        if "pre" not in c:
-            again = lit_record(c, scan_lits(ctx, [c], tag="relit")[cid])
-            if again != recid[cid]:
-                raise vlib.MachineryError("literal case %d not reproducible" % cid)
+        if "pre" not in c and lit_record(c, again[cid]) != recid[cid]:
+            raise vlib.MachineryError("literal case %d not reproducible" % cid)
+        sig = lit_signature(c)
+        per_sig[sig] = per_sig.get(sig, 0) + 1
+        if per_sig[sig] > 1:
+            continue
         r = recid[cid]["res"]
         got = "rejected" if not r["ok"] else "%s %s" % (r["kind"], json.dumps(r["v"])[:120])
-        ctx.violation(lit_signature(c), "literal %r scanned as: %s; the specification disagrees" % (show(c["lit"]), got),
+        ctx.violation(sig, "literal %r scanned as: %s; the specification disagrees" % (show(c["lit"]), got),
                       {"part": "lit", "case": {k: v for k, v in c.items() if k != "pre"}, "record": recid[cid]})
     ctx.log("literals: %d records validated by TLC, %d rejected" % (len(recs), len(bad)))
-    cov["literals"] = {"records": len(recs), "per_family": fam, "accepted_by_scanner": sum(1 for r in recs if r["res"]["ok"])}
+    cov["literals"] = {"records": len(recs), "per_family": fam, "accepted_by_scanner": sum(1 for r in recs if r["res"]["ok"]),
+                       "rejected_by_spec_per_signature": per_sig}
 
     cov["evaluations"] = n_texts + near_n + len(recs)
     cov["distinct_nontrivial"] = n_distinct + near_n + len({json.dumps(r["lit"]) for r in recs})
